@@ -42,7 +42,13 @@ def c09_case(rnd, cs, job, acc):
     for t in m["tasks"]:
         if t.get("priority") == 1:
             t["priority"] = 2
-    text1 = gen.render(m)
+    scen = None
+    if rnd.random() < 0.12:
+        # the same with further (nested) scenarios: the intruder must not disturb any of them (seeded change C09-e shared
+        # the resource limit counters between scenarios: the second scenario still saw the intruder's bookings of the first)
+        scen = ['scenario plan "p" {', '  scenario alt "a" {', '    scenario deep "d"', "  }", "}"]
+        acc.count("pairs-with-several-scenarios")
+    text1 = gen.render(m, scenarios=scen)
     # ---- intruder: root-level leaf, strictly lowest priority, nothing depends on it
     m2 = copy.deepcopy(m)
     intr = {"path": ("zz_intruder",), "container": False, "priority": 1 if rnd.random() < 0.8 else 0}   # 0: below every value a task can have
@@ -58,7 +64,7 @@ def c09_case(rnd, cs, job, acc):
     pos = rnd.choice(roots + [len(m2["tasks"])])
     m2["tasks"].insert(pos, intr)
     gen.assign_decl(m2)
-    text2 = gen.render(m2)
+    text2 = gen.render(m2, scenarios=scen)
     p1, _, ev1 = run(text1)
     d1, end1 = dates(p1), p1["end"]
     led1 = oracles.Obs(p1).led
@@ -78,6 +84,11 @@ def c09_case(rnd, cs, job, acc):
         acc.sig(("C09", m["alap"], m["res"], pos == len(m["tasks"]), pos == 0, "start" in intr, len(days_p & days_i) > 1,
                  any(r2.get("limits") for r2 in m["resources"]), len(m["resources"]), any(t.get("alt") for t in m["tasks"])))
     diff = [k for k in d1 if d1[k] != d2.get(k)]
+    for sc in range(1, p1.scenarioCount() if scen else 1):
+        e1, e2 = dates(p1, sc), dates(p2, sc)
+        diff += ["%s [scenario %d]" % (k, sc) for k in e1 if e1[k] != e2.get(k)]
+        d1.update({"%s [scenario %d]" % (k, sc): v for k, v in e1.items()})
+        d2.update({"%s [scenario %d]" % (k, sc): v for k, v in e2.items()})
     rp = dict(property="C09", seed=cs, model=m, text=text1, text2=text2)
     if diff:
         k = diff[0]
